@@ -40,3 +40,8 @@ claim("C20", "DESIGN.md 5 C20",
       "For every packet of the C01 space, built through the API or decoded from its own wire image, Packet.Clone and Header.Clone are compared with the generating model, then each of 10 single mutations is applied to the original or to the clone and the other side's reported fields and Marshal() bytes must be unchanged (shared backing arrays are detected by overwriting through every exposed slice, appending within capacity, Set/Del of extensions, and overwriting the decoded-from buffer).",
       "Packet alphabets as in C01 (reduced in the quick tier).",
       "bounded exhaustive enumeration of (packet, mutation) histories with a differential oracle (explicit choice-tree DFS on the real code)")
+
+claim("C03", "DESIGN.md 5 C03",
+      "Wire images are generated from the RFC 3550/8285 grammar by an independent reference builder: CSRC count x block kind (none / one-byte / two-byte / legacy) x every item sequence (pad runs 1-3, elements, id-15 terminator + ignored bytes) up to 3 items in full product with payload and RTP padding (incl. non-zero filler), up to 4 (quick) / 5 (thorough) items with reduced other dimensions, x extra pad word. Every image must be accepted and decode to the generating values with the header ending at the end of the block; every accepted input (images and all single-byte mutations of their header region) must re-encode to bytes that decode equal, byte-identical when canonical, or report invalid padding; the three standalone block views must give the same ids/values and re-serialise identically.",
+      "Duplicate ids and id-0 bytes with a length nibble are not generated. Two listed known findings (pinned payload start after an id-15 terminator; RawExtension value includes the block header) are matched by exact defect models, anything else is reported.",
+      "bounded exhaustive enumeration of grammar-generated inputs against an independent reference encoder/parser (explicit choice-tree DFS on the real code)")
